@@ -37,6 +37,12 @@ def run(tier, rep, ev):
     ev.cov["negative_control_header"] = {"cfg": "counts not validated against the data (tree before the repair)", "violated": rhn.violated or "NOTHING"}
     if rhn.ok:
         raise MachineryError("negative control failed: unvalidated counts stay proportional")
+    for cfg, what in (("HeaderRes_peritem.cfg", "count vector validated entry by entry instead of as a sum"),
+                      ("HeaderRes_chainloop.cfg", "packed headers unpacked in a loop without a bound")):
+        rx = tlc.run("HeaderRes", cfg, workers=4)
+        ev.cov.setdefault("negative_controls_header", {})[what] = rx.violated or "NOTHING"
+        if rx.ok:
+            raise MachineryError(f"negative control failed: {what}")
     archives = damage.sample_archives(py7zr, R, "thorough" if tier != "quick" else "quick")
     if tier == "quick":
         # every codec family also in quick: one more small archive per family
@@ -76,6 +82,8 @@ def run(tier, rep, ev):
                 for seq in damage.SEQUENCES[:3]:
                     add(label, f"password {wrong!r}", raw, wrong, seq)
         add(label, "intact", raw, pw, damage.SEQUENCES[1])
+    for what, img in damage.compound_attacks(tier):
+        add("compound", what, img, None, damage.SEQUENCES[0])
     for junk in (b"", b"7z", b"7z\xbc\xaf\x27\x1c", b"7z\xbc\xaf\x27\x1c" + bytes(26), b"7z\xbc\xaf\x27\x1c\x00\x04" + b"\xff" * 24, bytes(64), b"\xff" * 200):
         add("junk", f"{len(junk)} bytes", junk, None, damage.SEQUENCES[0])
     outs = sandbox.run_cases(damage.run_sequence, cases, timeout=10, nproc=16, slice_size=24, mem=1 << 30, max_hangs=60)
